@@ -25,6 +25,9 @@ for D in /verif/seeded/$PAT/; do
   N=$((N+1)); if [ $((N % JOBS)) -eq 0 ]; then wait; fi
 done
 wait
-cat $W/res/* > /verif/seeded/RESULTS.txt; echo SEEDSWEEP-DONE >> /verif/seeded/RESULTS.txt
+# results of this sweep replace the lines of the same seeds in RESULTS.txt, other lines stay
+touch /verif/seeded/RESULTS.txt
+for R in $W/res/*; do ID=$(basename $R); grep -v "^$ID " /verif/seeded/RESULTS.txt | grep -v SEEDSWEEP-DONE > $W/tmp_results; cat $W/tmp_results $R > /verif/seeded/RESULTS.txt; done
+sort -o /verif/seeded/RESULTS.txt /verif/seeded/RESULTS.txt; echo SEEDSWEEP-DONE >> /verif/seeded/RESULTS.txt
 git -C /repo worktree prune; rm -rf $W
 grep -c "exit=1" /verif/seeded/RESULTS.txt
